@@ -1,8 +1,17 @@
 """C09 — valid covariance in, valid covariance out, along any update history."""
 from fractions import Fraction
 
+import json
+import os
+
 from lib import ekf, glue, models as M
 from lib.ctx import Ctx
+
+# Level (relative to max(1, |P|)) up to which the first-order rounding bound carried by hist_py.py is followed.  While
+# the bound is below it a correct filter has defects below it, so it must neither refuse nor exceed the bound.  Beyond
+# it (noise-free expansive dynamics amplify rounding exponentially) no covariance-form filter can stay valid: F12.
+AMP_LIMIT = 1e-10
+CORPUS = os.path.join(os.path.dirname(os.path.dirname(os.path.dirname(os.path.abspath(__file__)))), "corpus", "C09")
 
 
 def make_history(rng, d, n_steps, max_dt):
@@ -25,10 +34,15 @@ def run(ctx: Ctx):
     ctx.make(["gen/EkfB.vo"])
     ctx.trusted += [
         "translator gen_ekf.py: the covariance formulas of process_model / sensor_model and the shape of assert_valid_covariance (tolerance constant, scale = max(1,n) * max(1, max|eigenvalue|), strict comparison)",
-        "exact-arithmetic invariant (MathComp, any real field, induction over histories); rounding inside matmul / eig is NOT modelled: the statement 'up to rounding relative to magnitude' is checked on long histories of the implementation (lambda_min >= -1e-9 lambda_max, asymmetry <= 1e-9 |P|), not proved",
+        "exact-arithmetic invariant (MathComp, any real field, induction over histories); rounding inside matmul / eig is NOT modelled: the statement 'up to rounding relative to magnitude' is checked on long histories of the implementation against a first-order rounding bound carried along the history (E' = F E F^T + C u |products| I, F = G or I - K H, from the filter's own Jacobians; hist_py.py), followed while the bound stays below 1e-10 of the magnitude; it is not proved",
         "np.linalg.eig characterised as returning real eigenvalues with eigenvectors for symmetric input (gate theorem is per eigenpair)",
     ]
     jobs = []
+    corpus = []
+    for fn in sorted(os.listdir(CORPUS)):
+        j = json.load(open(os.path.join(CORPUS, fn)))
+        j["_corpus"] = fn
+        corpus.append(j)
     for i in range(n_models):
         if i == 0:
             d = M.mass_zva_definition()
@@ -43,35 +57,57 @@ def run(ctx: Ctx):
             P0 = [[v[a] * v[b] for b in range(n)] for a in range(n)]
         jobs.append({"defn": d, "cse": bool(i % 2), "max_dt": max_dt, "ops": make_history(ctx.rng, d, n_steps, max_dt),
                      "P0": P0, "x0": {s: M.rnd_point(ctx.rng) for s in d["state"]},
-                     "decl": {"container": "set", "perm_seed": i}})
+                     "decl": {"container": "set", "perm_seed": i}, "amp_limit": AMP_LIMIT})
+    n_gen = len(jobs)
+    jobs = jobs + corpus
     res = ctx.run_impl_jobs("hist_py.py", jobs)
-    dist = {"models": n_models, "steps_per_history": n_steps, "singular_jacobian_models": 0, "steps_run": 0, "stopped_magnitude": 0}
+    dist = {"models": n_models, "steps_per_history": n_steps, "singular_jacobian_models": 0, "steps_run": 0, "stopped_magnitude": 0,
+            "stopped_rounding_bound": 0, "corpus_histories": len(corpus), "rounding_bound_limit": AMP_LIMIT,
+            "max_defect_rel_in_scope": 0.0, "max_defect_over_bound": 0.0}
     for i, (job, r) in enumerate(zip(jobs, res)):
         d = job["defn"]
         if "error" in r:
             ctx.violation(f"compile_ekf crashed on a valid definition: {r['kind']}", {"definition": d, "error": r["error"]}, key="compile-raises")
             continue
-        sing = (i % 2 == 1) or i == 0
+        sing = ((i % 2 == 1) or i == 0) if i < n_gen else True
         dist["singular_jacobian_models"] += int(sing)
         dist["steps_run"] += r["steps_done"]
-        dist["stopped_magnitude"] += int(r["stopped"] is not None)
+        dist["stopped_magnitude"] += int(r["stopped"] == "magnitude bound exceeded")
+        dist["stopped_rounding_bound"] += int(r["stopped"] == "rounding amplification bound exceeded")
+        if r["stopped"] and r["stopped"].startswith("bound computation failed"):
+            ctx.broken.append({"kind": "correspondence", "name": "rounding bound could not be computed from the filter's Jacobians", "detail": r["stopped"]})
+        in_scope_only = job.get("amp_limit") is not None
+        if in_scope_only:
+            dist["max_defect_rel_in_scope"] = max(dist["max_defect_rel_in_scope"], r["max_defect_rel"])
+            dist["max_defect_over_bound"] = max(dist["max_defect_over_bound"], r["defect_over_bound"])
         ctx.count(["C09", d, job["ops"][:5]], sing and r["steps_done"] >= 50,
                   sample={"states": sorted(d["state"]), "singular": sing, "steps": r["steps_done"], "min_rel_eig": r["min_rel_eig"],
                           "max_asym_rel": r["max_asym_rel"], "max_abs": r["max_abs"]})
-        rep = {"definition": d, "cse": job["cse"], "P0": job["P0"], "x0": job["x0"], "ops_until_failure": job["ops"][: (r["failed_at"] or 0) + 1],
-               "observed": r}
-        if r["failed_at"] is not None:
-            ctx.violation(f"the filter refused / failed at step {r['failed_at']} of a history that started from a valid covariance: {r['failure'][:160]}",
+        rep = {"definition": d, "cse": job["cse"], "max_dt": job["max_dt"], "P0": job["P0"], "x0": job["x0"], "decl": job.get("decl"),
+               "ops_until_failure": job["ops"][: (r["failed_at"] or 0) + 1], "observed": r, "corpus_file": job.get("_corpus")}
+        amplified = r["failed_at"] is not None and r.get("amp_rel_at_failure", 0.0) > AMP_LIMIT
+        if r["failed_at"] is not None and not amplified:
+            ctx.violation(f"the filter refused / failed at step {r['failed_at']} of a history that started from a valid covariance, where accumulated rounding "
+                          f"is bounded by {r.get('amp_rel_at_failure')!r} of the magnitude: {r['failure'][:160]}",
                           rep, key="history-refused:" + r["failure"].split(":")[0])
-        elif r["min_rel_eig"] < -1e-9:
+        elif amplified and r["failure"].startswith("AssertionError"):
+            # the one listed finding: rounding defects amplified beyond any fixed tolerance by noise-free expansive dynamics
+            ctx.violation(f"the filter refused step {r['failed_at']}: rounding defects amplified by noise-free expansive dynamics (bound {r.get('amp_rel_at_failure')!r})",
+                          rep, key="history-refused-after-rounding-amplification")
+        elif amplified:
+            ctx.violation(f"the filter failed at step {r['failed_at']}: {r['failure'][:160]}", rep, key="history-failed:" + r["failure"].split(":")[0])
+        elif r["defect_over_bound"] > 1.0 and in_scope_only:
+            ctx.violation(f"negative eigenvalue / asymmetry {r['defect_over_bound']!r} times larger than the first-order rounding bound of the history",
+                          rep, key="history-defect-beyond-rounding")
+        elif in_scope_only and r["min_rel_eig"] < -1e-9:
             ctx.violation(f"covariance became indefinite: lambda_min/lambda_max = {r['min_rel_eig']!r}", rep, key="history-indefinite")
-        elif r["max_asym_rel"] > 1e-9:
+        elif in_scope_only and r["max_asym_rel"] > 1e-9:
             ctx.violation(f"covariance became asymmetric: {r['max_asym_rel']!r} relative", rep, key="history-asymmetric")
     # ---------------- the gate: model (regenerated constants) vs implementation on diagonal matrices
     cases = []
     for n in (1, 2, 3, 4):
         for big in (1.0, 126.0, 1e6, 1e-3):
-            for rel in (0.0, -1e-17, -5e-16, -0.9e-15, -1.1e-15, -3e-15, -1e-12, -1e-3, 1e-15):
+            for rel in (0.0, -1e-17, -5e-16, -0.9e-15, -1.1e-15, -3e-15, -2.4e-15, -1e-12, -0.9e-9, -1.1e-9, -1e-7, -1e-3, 1e-15):
                 for mult in (1, n, 2 * n):
                     eigs = [big] + [big * rel * mult] + [big / 2] * (n - 2) if n >= 2 else [big * (1 if rel == 0 else rel)]
                     cases.append(eigs[:n])
@@ -83,15 +119,15 @@ def run(ctx: Ctx):
         rows = []
         for e, got in zip(cases, r["results"]):
             q = M.coq_list([M.coq_q(x) for x in e])
-            bound = -1e-15 * max(1, len(e)) * max(1.0, max(abs(x) for x in e))
+            bound = r["negative_tol"] * max(1, len(e)) * max(1.0, max(abs(x) for x in e))
             if abs(min(e) - bound) > 1e-3 * abs(bound):  # not within rounding of the decision boundary itself
               rows.append(f"Bool.eqb (gate_refuses {len(e)} {q}) {'true' if got == 'refuse' else 'false'}")
             # a PSD matrix (all eigenvalues >= 0) must be accepted
             if min(e) >= 0 and got != "accept":
                 ctx.violation(f"assert_valid_covariance refuses the positive semi-definite matrix diag{tuple(e)}", {"matrix": e, "observed": got}, key="gate-refuses-psd")
             # eigenvalue negative only at rounding level relative to the magnitude must be accepted
-            if min(e) < 0 and abs(min(e)) <= 4e-16 * max(1.0, max(abs(x) for x in e)) and got != "accept":
-                ctx.violation(f"assert_valid_covariance refuses diag{tuple(e)} whose negative eigenvalue is at rounding level relative to its magnitude",
+            if min(e) < 0 and abs(min(e)) <= 1e-14 * max(1.0, max(abs(x) for x in e)) and got != "accept":
+                ctx.violation(f"assert_valid_covariance refuses diag{tuple(e)} whose negative eigenvalue is within the accumulated-rounding level observed on in-scope histories (1e-14) relative to its magnitude",
                               {"matrix": e, "observed": got}, key="gate-refuses-rounding")
             if min(e) < -1e-6 * max(1.0, max(abs(x) for x in e)) and got == "accept":
                 ctx.violation(f"assert_valid_covariance accepts the clearly indefinite matrix diag{tuple(e)}", {"matrix": e}, key="gate-accepts-indefinite")
@@ -111,5 +147,6 @@ def run(ctx: Ctx):
     ctx.cov["input_distribution"] = dist
     return ("histories of predictions (dt <= max_dt, several sizes) and sensor updates on the project's mass/z/v/a model and on random bounded "
             "linear models, half of them with singular process Jacobians (copied / constant / projected states), from SPD, identity and rank-one "
-            "covariances; every step must be accepted and stay symmetric PSD relative to magnitude; the validity gate is compared with its regenerated "
+            "covariances, plus the corpus histories; while the first-order rounding bound of the history stays below 1e-10 of the magnitude every step must be accepted and "
+            "the negative eigenvalue / asymmetry must stay below that bound; a refusal beyond it is the listed finding F12; the validity gate is compared with its regenerated "
             "model on diagonal matrices around the tolerance; non-trivial = singular-Jacobian model that ran >= 50 steps; distinct by (model, first ops)")
